@@ -255,4 +255,18 @@ func rulesC20(e *Engine, r *Report) {
 		r.Check(okOrder, "R20.5", "stage.(*Stage).clean: re-arm is deferred first (runs after the unlock)", e.Pos(fn.Pos()),
 			"scheduleClean takes cleanLock itself: it must run after clean() released it: "+strings.Join(order, ", "), 1, order...)
 	}
+	// ---------------------------------------------------------------- R20.7
+	r.Rule("R20.7", "`old enough` means the age the operator gave: the on-demand prune route reads `minage` as whole seconds and hands GateKeeper.Prune that number multiplied by time.Second (a bare number would be nanoseconds: every empty directory, however fresh, would qualify)")
+	if fn := needFn(e, r, "R20.7", "http.(*Server).routeInternal"); fn != nil {
+		n := 0
+		for _, cf := range WithClosures(fn) {
+			for _, in := range e.findInstrs(cf, "invoke(sts.GateKeeper.Prune)(§)", false) {
+				n++
+				a := e.Canon(in.(ssa.CallInstruction).Common().Args[0])
+				ok := strings.Contains(a, `"minage"`) && strings.HasSuffix(strings.TrimPrefix(a, "^"), "* 1000000000)")
+				r.Check(ok, "R20.7", e.ShortName(cf)+": Prune(minage × time.Second)", e.InstrPos(in), "the age handed to Prune is not the request's minage in seconds: "+shorten(a), 1, a)
+			}
+		}
+		r.Min("R20.7", "Prune calls in the internal route", n, 1)
+	}
 }
